@@ -70,9 +70,13 @@ var (
 	rightAddr    = sha256.Sum256([]byte("c15 payment address"))
 	wrongAddr    = sha256.Sum256([]byte("c15 wrong payment address"))
 	ampInvHash   = lntypes.Hash(sha256.Sum256([]byte("c15 amp invoice pseudo hash")))
-	ampSetIDs    = [3][32]byte{{}, sha256.Sum256([]byte("c15 amp set 1")), sha256.Sum256([]byte("c15 amp set 2"))}
-	ampRoots     = [3]amp.Share{{}, amp.Share(sha256.Sum256([]byte("c15 amp root 1"))), amp.Share(sha256.Sum256([]byte("c15 amp root 2")))}
-	ampFirstHalf = [3]amp.Share{{}, amp.Share(sha256.Sum256([]byte("c15 amp share 1a"))), amp.Share(sha256.Sum256([]byte("c15 amp share 2a")))}
+	// amp set 3 carries the all-zero set id (the value update.go / sql_store.go single out as "blank")
+	ampSetIDs    = [4][32]byte{{}, sha256.Sum256([]byte("c15 amp set 1")), sha256.Sum256([]byte("c15 amp set 2")), {}}
+	ampRoots     = [4]amp.Share{{}, amp.Share(sha256.Sum256([]byte("c15 amp root 1"))), amp.Share(sha256.Sum256([]byte("c15 amp root 2"))), amp.Share(sha256.Sum256([]byte("c15 amp root 3")))}
+	ampFirstHalf = [4]amp.Share{{}, amp.Share(sha256.Sum256([]byte("c15 amp share 1a"))), amp.Share(sha256.Sum256([]byte("c15 amp share 2a"))), amp.Share(sha256.Sum256([]byte("c15 amp share 3a")))}
+	zeroAddr     [32]byte         // == invoices.BlankPayAddr
+	zeroHash     lntypes.Hash     // all-zero payment hash
+	zeroPreimage lntypes.Preimage // all-zero preimage
 )
 
 func mkPreimage(s string) lntypes.Preimage {
@@ -174,12 +178,15 @@ func (k Kind) invoiceHash() lntypes.Hash {
 
 // htlcSpec is everything the sender chooses about one HTLC.
 type htlcSpec struct {
-	Pay   byte // 'L' legacy, 'M' mpp record, 'P' blinded path id + total, 'K' keysend record, 'A' amp+mpp
-	Addr  byte // 'r' right, 'w' wrong, 0 none
-	Tot   byte // '-' v-1, '0' v, '+' v+1, 0 none
+	// 'L' legacy, 'M' mpp record, 'P' blinded path id + total, 'K' keysend record, 'A' amp+mpp,
+	// 'Z' mpp record on an HTLC locked to the ALL-ZERO payment hash
+	Pay   byte
+	Addr  byte // 'r' right, 'w' wrong (non-zero), 'z' all-zero (BlankPayAddr), 0 no record
+	Tot   byte // '-' v-1, '0' v, '+' v+1, 'z' zero, 0 none
 	Amt   int64
-	Exp   string // "lo" margin-1, "ok" margin, "hi" margin+1 above the base height
-	Set   int    // amp set 1|2
+	Exp   string // "lo" margin-1, "ok" margin, "hi" margin+1 above the base height, "z" expiry 0
+	Set   int    // amp set 1|2, 3 = the all-zero set id
+	Zero  bool   // keysend: all-zero preimage in the record
 	Shard byte   // '0' '1' 's'
 	Bad   bool   // amp: corrupted share; keysend: wrong preimage in the record
 	KsMpp bool   // keysend record together with an mpp record
@@ -191,6 +198,8 @@ func totalOf(t byte) int64 {
 		return valueV - 1
 	case '+':
 		return valueV + 1
+	case 'z':
+		return 0
 	}
 	return valueV
 }
@@ -209,7 +218,7 @@ func parseHTLC(op string) (htlcSpec, error) {
 		if len(p) != 1 {
 			return s, fmt.Errorf("bad pay %q", p)
 		}
-	case 'M', 'P':
+	case 'M', 'P', 'Z':
 		if len(p) != 3 {
 			return s, fmt.Errorf("bad pay %q", p)
 		}
@@ -224,6 +233,8 @@ func parseHTLC(op string) (htlcSpec, error) {
 			s.Bad = true
 		case 'm':
 			s.KsMpp = true
+		case 'z':
+			s.Zero = true
 		default:
 			return s, fmt.Errorf("bad pay %q", p)
 		}
@@ -234,7 +245,7 @@ func parseHTLC(op string) (htlcSpec, error) {
 		s.Set = int(p[1] - '0')
 		s.Shard, s.Addr, s.Tot = p[2], p[3], p[4]
 		s.Bad = p[5] == 'b'
-		if s.Set < 1 || s.Set > 2 {
+		if s.Set < 1 || s.Set > 3 {
 			return s, fmt.Errorf("bad set in %q", p)
 		}
 	default:
@@ -246,7 +257,7 @@ func parseHTLC(op string) (htlcSpec, error) {
 	}
 	s.Amt = a
 	s.Exp = f[3]
-	if s.Exp != "lo" && s.Exp != "ok" && s.Exp != "hi" {
+	if s.Exp != "lo" && s.Exp != "ok" && s.Exp != "hi" && s.Exp != "z" {
 		return s, fmt.Errorf("bad expiry %q", f[3])
 	}
 	return s, nil
@@ -268,6 +279,8 @@ func (s htlcSpec) hash(k Kind) lntypes.Hash {
 	switch {
 	case s.Pay == 'A':
 		return ampChild(s.Set, s.Shard).Hash
+	case s.Pay == 'Z':
+		return zeroHash
 	case s.Pay == 'K':
 		return ksHash
 	case k.JIT == "keysend":
@@ -284,6 +297,8 @@ func (s htlcSpec) absExpiry(k Kind) uint32 {
 		e--
 	case "hi":
 		e++
+	case "z":
+		return 0
 	}
 	return uint32(e)
 }
@@ -309,8 +324,11 @@ func (p *payload) CustomRecords() record.CustomSet {
 }
 
 func addrOf(a byte) [32]byte {
-	if a == 'w' {
+	switch a {
+	case 'w':
 		return wrongAddr
+	case 'z':
+		return zeroAddr
 	}
 	return rightAddr
 }
@@ -318,7 +336,7 @@ func addrOf(a byte) [32]byte {
 func (s htlcSpec) payload() *payload {
 	p := &payload{}
 	switch s.Pay {
-	case 'M':
+	case 'M', 'Z':
 		p.mpp = record.NewMPP(lnwire.MilliSatoshi(totalOf(s.Tot)), addrOf(s.Addr))
 	case 'P':
 		a := chainhash.Hash(addrOf(s.Addr))
@@ -328,6 +346,9 @@ func (s htlcSpec) payload() *payload {
 		pre := ksPreimage
 		if s.Bad {
 			pre = ksWrongPre
+		}
+		if s.Zero {
+			pre = zeroPreimage
 		}
 		p.custom = record.CustomSet{record.KeySendType: append([]byte{}, pre[:]...)}
 		if s.KsMpp {
@@ -757,7 +778,7 @@ func htlcStateName(s invpkg.HtlcState) string {
 }
 
 func setNumber(id [32]byte) int {
-	for i := 1; i <= 2; i++ {
+	for i := 1; i <= 3; i++ {
 		if ampSetIDs[i] == id {
 			return i
 		}
